@@ -790,6 +790,15 @@ def scan_file(path):
                                 en = name_of(e)
                                 if en and kk: kinds[en] = kk
         def kind_of(e):
+            # set-valued EXPRESSIONS: a | b, a - b, set(...), {...}, {x for ...}
+            if isinstance(e, ast.BinOp) and isinstance(e.op, (ast.BitOr, ast.BitAnd, ast.Sub, ast.BitXor)):
+                for side in (e.left, e.right):
+                    _n, _k = kind_of(side)
+                    if _k == "set":
+                        return "<" + ast.unparse(e)[:40] + ">", "set"
+                return None, None
+            if value_kind(e) == "set":
+                return "<" + ast.unparse(e)[:40] + ">", "set"
             nm = name_of(e)
             if nm is None: return None, None
             if nm in kinds: return nm, kinds[nm]
